@@ -322,6 +322,43 @@ func PositivelyNamed(n parser.Node) []string {
 	return out
 }
 
+// HasTieBreak: the expression holds topk/bottomk, whose choice among equal values is not reproducible
+// (two evaluations of the same query may return different series).
+func HasTieBreak(n parser.Node) bool {
+	found := false
+	parser.Inspect(n, func(node parser.Node, _ []parser.Node) error {
+		if a, ok := node.(*parser.AggregateExpr); ok && (a.Op == parser.TOPK || a.Op == parser.BOTTOMK) {
+			found = true
+		}
+		return nil
+	})
+	return found
+}
+
+// IncludeDeletes: the subtree holds `X op on/ignoring(..) group_left(.., l, ..) Y` (or group_right) whose
+// "one" side cannot carry l - the engine then removes l from the result.
+func IncludeDeletes(n parser.Node, l string) bool {
+	found := false
+	parser.Inspect(n, func(node parser.Node, _ []parser.Node) error {
+		b, ok := node.(*parser.BinaryExpr)
+		if !ok || b.VectorMatching == nil || !contains(b.VectorMatching.Include, l) {
+			return nil
+		}
+		switch b.VectorMatching.Card {
+		case parser.CardManyToOne:
+			if !MayCarry(b.RHS, l) {
+				found = true
+			}
+		case parser.CardOneToMany:
+			if !MayCarry(b.LHS, l) {
+				found = true
+			}
+		}
+		return nil
+	})
+	return found
+}
+
 // MayCarry is a small structural over-approximation, independent of pint, of
 // "a series returned by this expression can carry label l" (l != __name__).
 // It is used only to name known-finding classes narrowly, never as an oracle.
@@ -401,9 +438,16 @@ func MayCarry(n parser.Node, l string) bool {
 			}
 			return !in && MayCarry(v.LHS, l)
 		case parser.CardManyToOne:
-			return MayCarry(v.LHS, l) || contains(vm.Include, l) && MayCarry(v.RHS, l)
+			// a label listed in group_left(...) is copied from the "one" side - and removed when that side lacks it
+			if contains(vm.Include, l) {
+				return MayCarry(v.RHS, l)
+			}
+			return MayCarry(v.LHS, l)
 		case parser.CardOneToMany:
-			return MayCarry(v.RHS, l) || contains(vm.Include, l) && MayCarry(v.LHS, l)
+			if contains(vm.Include, l) {
+				return MayCarry(v.LHS, l)
+			}
+			return MayCarry(v.RHS, l)
 		}
 	}
 	return true
